@@ -173,6 +173,8 @@ def run_case(cs, layout=None, rng=None):
         elif op == 'shift_out_rows':
             lv = cs['lv']
             res = any_frame(with_names(f, cs['names']).relabel_shift_out(lv[0] if len(lv) == 1 and rng.random() < 0.5 else list(lv)))
+        elif op == 'stack_h':
+            res = any_frame(f.pivot_stack())
         elif op == 'stack':
             res = any_frame(f.pivot_stack())
         elif op == 'unstack':
@@ -330,8 +332,35 @@ def gen_reshape(rng):
     return {'op': 'unstack', 'f': g, 'fill': rand_fill(rng)}
 
 
+def gen_stack_h(rng):
+    '''two-level columns (outer group, inner field), groups sharing some inner labels; columns of one group may have the same kind in
+    different widths (text of 1 and of 6 characters, short and long numbers): stacking must not narrow any cell'''
+    outers = rng.sample(['g', 'h', 'k'], rng.randint(1, 3))
+    inner_pool = ['a', 'b', 'c']
+    cols, labels = [], []
+    nr = rng.randint(1, 3)
+    for o in outers:
+        kind = rng.choice(['U', 'U', 'i', 'f'])
+        for u in rng.sample(inner_pool, rng.randint(1, 3)):
+            labels.append(['t', [['s', o], ['s', u]]])
+            if kind == 'U':
+                w = rng.choice([1, 1, 6])
+                vals = [['s', rng.choice(['B', 'R', 'x'])] if w == 1 else ['s', rng.choice(['Berlin', 'Roma', 'q r st'])] for _ in range(nr)]
+                cols.append({'dt': ['U', max(len(v[1]) for v in vals)], 'vals': vals})
+            elif kind == 'i':
+                cols.append({'dt': ['i', 64], 'vals': [['i', rng.choice([1, 2, 100000, -7])] for _ in range(nr)]})
+            else:
+                cols.append({'dt': ['f', 64], 'vals': [['f', rng.choice([1, 3, 2001, -5]), rng.choice([2, 4])] for _ in range(nr)]})          # never whole: results are compared numerically canonical
+    for c in cols:
+        c['vals'] = [(['f', v[1] // __import__('math').gcd(v[1], v[2]), v[2] // __import__('math').gcd(v[1], v[2])] if v[0] == 'f' else v) for v in c['vals']]
+    f = {'index': C.rand_labels(rng, nr, 'str'), 'columns': labels, 'cols': cols, 'name': ['none']}
+    return {'op': 'stack_h', 'f': f}
+
+
 def gen_case(rng):
     q = rng.random()
+    if q < 0.04:
+        return gen_stack_h(rng), None
     cs = gen_pivot(rng) if q < 0.4 else gen_join(rng) if q < 0.7 else gen_reshape(rng)
     lay = C.rand_layout(rng, realise(cs['f']))
     if 'g' in cs:
